@@ -18,6 +18,8 @@ var unicodeWords = []string{
 	"\U0001F600", "\U000E0041", "\U0010FFFF", "a\U00010400", // astral planes
 	"\xc3", "a\xc3", "\xe2\x82", "\xf0\x9f\x98", "\xc0\xaf", "\xed\xa0\x80", "\xf4\x90\x80\x80", "a\xffb", // invalid UTF-8 in several positions
 	"ANDx", "xAND", "AnD", "ÀND", "ТО", // keyword look-alikes (the last is Cyrillic)
+	"“hi”", "say “hi” to", "‘x’", "«x»", "„x“", "‹x›", "＂x＂", "＇x＇", "x”", "“", "′x″", "`x`", "´x´", // quotation marks that are not the ASCII ones
+	"€5", "5¥", "£", "₿x", "x¢", "$5", "@bob", "#tag", "x§y", "x¶", "x°", "x±y", "x×y", "x÷y", "x©", // currency signs and other symbols
 }
 
 var boundaryNumbers = []string{
@@ -154,7 +156,9 @@ func CodePoint(r *Rng) string {
 // EscapeRun puts a run of 1–6 backslashes before a special character inside a bare word, a quoted phrase or a regexp.
 func EscapeRun(r *Rng) string {
 	run := strings.Repeat("\\", 1+r.Intn(6))
-	sp := Pick(r, []string{"/", `"`, "'", " ", ":", "*", "?", "(", ")", "", "a", "\t", "~"})
+	// special characters, and characters that would form an escape SEQUENCE in another language (\n, \t, \u0041, \x41, \101):
+	// here a backslash escapes exactly one character and the next ones are ordinary text
+	sp := Pick(r, []string{"/", `"`, "'", " ", ":", "*", "?", "(", ")", "", "a", "\t", "~", "u0041", "u00e9", "U0001F600", "x41", "n", "t", "r", "0", "101", "u12", "users"})
 	switch r.Intn(6) {
 	case 0:
 		return "f:/a" + run + sp + "b/"
